@@ -74,7 +74,7 @@ CHECKS = {
  "C09": dict(
     text="Proof: chain is modelled as written (a fold of add_record(copy, merge=True) into an empty converter), so T2 applies "
          "to every step: C09_wf (the result satisfies C04/C05, both case modes, every folding function), C09_union (it knows "
-         "exactly the union of the inputs' CURIE prefixes and URI prefixes), C09_error / C09_empty (only ValueError), and for "
+         "exactly the union of the inputs' CURIE prefixes and URI prefixes; C09_union_advertised: the same in terms of get_prefixes / get_uri_prefixes / standardize_prefix, which the check reads on every input and on the result), C09_error / C09_empty (only ValueError), and for "
          "get_subconverter C09_sub_records (exactly the records with a prefix or synonym in P, well-formed) and C09_sub_expand "
          "(answers as the parent on kept prefixes, None otherwise), C09_priority (case-sensitive: every record of the first "
          "converter survives with its canonical prefix, canonical URI prefix and pattern, so every prefix known to c1 expands "
